@@ -126,6 +126,27 @@ example : isOk (writePoscar exSys ["test"] (some ["Al", "Cu"]) "Cartesian" 2 (.e
   · intro l hl; injection hl with hl; subst hl
     exact ⟨by decide, "Al", ["Cu"], rfl, by decide⟩
 
+/-- **poscar_symbols_match_counts**: the file an independent POSCAR reader gets back has one per-type count for
+    every atom type of the system, and whenever a symbols line is written it names exactly as many species as
+    the counts line has entries (a type no atom has is counted with `0`, in the middle or at the end). -/
+theorem poscar_symbols_match_counts (s : Sys) (header : List String) (symbols : Option (List String))
+    (coordstyle : String) (scale : ℚ) (f : Fmt) (text : List Char)
+    (h : writePoscar s header symbols coordstyle scale f = .ok text)
+    (hs : PoscarStringsOk header symbols coordstyle) (hscale : 0 < fmtVal f scale)
+    (hlen : s.atype.length = s.pos.length) (hty : ∀ t ∈ s.atype, 1 ≤ t ∧ t ≤ (s.natypes : Int)) :
+    ∃ p, parsePoscar text = some p ∧ p.counts.length = s.natypes ∧
+      (∀ i, i < s.natypes → p.counts[i]? = some (countType s.atype ((i : Int) + 1))) ∧
+      (∀ l, p.symbols = some l → l.length = p.counts.length) := by
+  obtain ⟨_, _, h3, h4⟩ := parsePoscar_writePoscar s header symbols coordstyle scale f text h hs hscale hlen hty
+  refine ⟨_, h4, ?_, ?_, ?_⟩
+  · simp [poscarExpected, poscarNums]
+  · intro i hi
+    simp [poscarExpected, poscarNums, hi]
+  · intro l hl
+    simp only [poscarExpected, Option.map_eq_some_iff] at hl
+    obtain ⟨l0, hl0, rfl⟩ := hl
+    simp [poscarExpected, poscarNums, h3 l0 hl0]
+
 /-- **data_parse_write**: for every system, every atom_style the writer accepts (hybrids included) and every unit
     style, the independent `read_data` reader — which knows only the LAMMPS manual's line layout of that style —
     applied to the written text returns: the header counts = the system's; the bounds = the wrapped box divided by
@@ -413,6 +434,50 @@ theorem info_names_used (s : Sys) (style unitsName : String) (u : Units) (f : Fm
         simp only [Except.map, Except.ok.injEq] at hw
         subst hw
         simp [dataDocOf]
+
+/-- **requested_args_used**: `System.dump('atom_data', units=, atom_style=, natypes=, potential=)` — an argument
+    the caller gives is the one used, whatever the potential says; one left out comes from the potential when
+    there is one, else it is `metal` / `atomic` / the system's number of types; the file and the snippet are the
+    ones `dumpData` produces for the resolved names (so, with `info_names_used`, the snippet names them and the
+    numbers are converted with the factors of the resolved unit style). -/
+theorem requested_args_used (s : Sys) (ua sa : Option String) (na : Option Nat) (pot : Option PotArgs)
+    (unitsOf : String → Units) (f : Fmt) (fname : Option String) :
+    let r := resolveArgs ua sa na pot s.natypes
+    (∀ u, ua = some u → r.1 = u) ∧ (∀ st, sa = some st → r.2.1 = st) ∧ (∀ n, na = some n → r.2.2 = n) ∧
+    (∀ p, pot = some p → (ua = none → r.1 = p.units) ∧ (sa = none → r.2.1 = p.atomStyle) ∧
+      (na = none → r.2.2 = p.natypes)) ∧
+    (pot = none → (ua = none → r.1 = "metal") ∧ (sa = none → r.2.1 = "atomic") ∧ (na = none → r.2.2 = s.natypes)) ∧
+    dumpDataWith s ua sa na pot unitsOf f fname
+      = dumpData { s with natypes := r.2.2 } r.2.1 r.1 (unitsOf r.1) f fname := by
+  intro r
+  refine ⟨?_, ?_, ?_, ?_, ?_, rfl⟩
+  · intro u hu; subst hu; cases pot <;> rfl
+  · intro st hst; subst hst; cases pot <;> rfl
+  · intro n hn; subst hn; cases pot <;> rfl
+  · intro p hp; subst hp
+    exact ⟨fun h => by subst h; rfl, fun h => by subst h; rfl, fun h => by subst h; rfl⟩
+  · intro hp; subst hp
+    exact ⟨fun h => by subst h; rfl, fun h => by subst h; rfl, fun h => by subst h; rfl⟩
+
+/-- with explicit `units=` and `atom_style=` the snippet names them — also when a potential with other values
+    is passed along. -/
+theorem requested_units_in_snippet (s : Sys) (un st : String) (na : Option Nat) (pot : Option PotArgs)
+    (unitsOf : String → Units) (f : Fmt) (fname : Option String) (content info : List Char)
+    (h : dumpDataWith s (some un) (some st) na pot unitsOf f fname = .ok (content, info)) :
+    ∃ n, info = renderLines (infoDoc s.pbc st un fname) ∧
+      [cs!"units", strTok un] ∈ infoDoc s.pbc st un fname ∧
+      (cs!"atom_style" :: (styleWords st).map strTok) ∈ infoDoc s.pbc st un fname ∧
+      dumpData { s with natypes := n } st un (unitsOf un) f fname = .ok (content, info) := by
+  have hr : resolveArgs (some un) (some st) na pot s.natypes
+      = (un, st, (resolveArgs (some un) (some st) na pot s.natypes).2.2) := by
+    cases pot <;> rfl
+  unfold dumpDataWith at h
+  rw [hr] at h
+  simp only at h
+  obtain ⟨h1, h2, h3, _⟩ := info_names_used _ st un (unitsOf un) f fname content info h
+  exact ⟨_, h1, h2, h3, h⟩
+
+example : resolveArgs (some "si") none none (some ⟨"metal", "charge", 2⟩) 3 = ("si", "charge", 2) := by decide
 
 /-! ## the generated column / unit tables against the hand-encoded LAMMPS manual tables -/
 
